@@ -75,7 +75,7 @@ func earlyRemedy(kind, name string, status int) sharedConfig.Remedy {
 	return r
 }
 
-func newDispatch(p *policyState, early int, kind string) (*dispState, error) {
+func newDispatch(p *policyState, early int, kind string, retryFirst bool) (*dispState, error) {
 	svcOnce.Do(func() {
 		svc, svcErr = services.Initialize(&nullWriter{}, 15*time.Second, sharedConfig.Exporters{})
 		if svcErr == nil {
@@ -94,6 +94,9 @@ func newDispatch(p *policyState, early int, kind string) (*dispState, error) {
 	withRetry := []sharedConfig.Remedy{
 		earlyRemedy(kind, fmt.Sprintf("c17-%s-%d-r", kind, dispSeq), early),
 		{Name: fmt.Sprintf("c17-retry-%d", dispSeq), Enabled: true, Config: sharedConfig.RemedyConfig{Retry: p.cfg}},
+	}
+	if retryFirst {
+		withRetry[0], withRetry[1] = withRetry[1], withRetry[0] // retry remedy listed before the storing remedy
 	}
 	endpoints := []sharedConfig.EndpointConfig{
 		{Method: "GET", URL: d.url["r"], Remedies: withRetry},
@@ -185,10 +188,18 @@ func dispatchOp(st *caseState, w []string) string {
 		if kind != "fixed" && kind != "strategy" && kind != "concurrency" && kind != "replay" && kind != "cache" {
 			return "bad-op"
 		}
+		order, oko := kvS(w, "order")
+		if !oko {
+			order = "sr"
+		}
+		// order of the two remedies on endpoint r: sr = storing/early-answering remedy first, rs = retry first
+		if (order != "sr" && order != "rs") || (order == "rs" && kind != "replay" && kind != "cache") {
+			return "bad-op"
+		}
 		if a := policyOp(st, append([]string{"pcfg"}, w[1:]...)); a != "ok" {
 			return a
 		}
-		d, err := newDispatch(st.po, int(early), kind)
+		d, err := newDispatch(st.po, int(early), kind, order == "rs")
 		if err != nil {
 			return "err:setup:" + proto.Enc(err.Error())
 		}
@@ -255,10 +266,15 @@ func dispatchOp(st *caseState, w []string) string {
 				p.lastInRange = true
 			}
 		}
+		// hdr=0: a provider response without any header at all
+		hdrs := map[string]string{"retry-after": "100000", "content-type": "text/plain"}
+		if h, okh := kvI(w, "hdr"); okh && h == 0 {
+			hdrs = map[string]string{}
+		}
 		b := p.base()
 		acts, err := runner.DispatchOnResponse(lunarMessages.OnResponse{
 			ID: proto.Dec(idE), SequenceID: proto.Dec(sE), Method: "GET", URL: d.url[ep], Status: int(status),
-			Headers: map[string]string{"retry-after": "100000", "content-type": "text/plain"}, Body: "upstream",
+			Headers: hdrs, Body: "upstream",
 			Time: p.clk.Now(),
 		}, d.tree, &d.policies.Global, svc, dworker)
 		p.quiesce(b)
